@@ -10,6 +10,7 @@ Line protocol of C02 (stateful: the directory of the current case).
   compress <fb> <keep> <fault>      Reader.compress_file       fb: bin|cbin   keep: 0|1   fault: chunks written before the exception, or N
   decompress <fb> <keep> <ov> <fault>   Reader.decompress_file (default out)
   toscratch <fb> <scratch> <fault>  Reader.decompress_to_scratch (scratch: 0 = in place, 1 = scratch dir)
+  rewrite <v> <n>                   the environment replaces x.bin by version v of the recording (chunk ids 100v .. 100v+n-1)
   open <entry>                      spikeglx.Reader(entry)     entry: bin|cbin|meta
   slice <sizes> <start> <stop> <step>   _raw[start:stop:step] on both backends; rows are numbered 0.. ; N = None
   index <sizes> <i>                 _raw[i] on both backends
@@ -55,8 +56,12 @@ def fault? (s : String) : Option (Option Nat) :=
 def optInt? (s : String) : Option (Option Int) :=
   if s = "N" then some none else (s.toInt?).map some
 
-def answer (r : Fs Nat Nat × DataName × Outcome) : Fs Nat Nat × String :=
-  (r.1, s!"{showOutcome r.2.2} fb={showName r.2.1} | {showFs r.1}")
+/-- A call: the directory evolves through `stepE` (the definition the history theorems are about); outcome and the
+reader's new `file_bin` are those of `FsCompress.step` on the same directory. -/
+def answer (g : Hist Nat Nat) (o : Op) : Hist Nat Nat × String :=
+  let r := FsCompress.step codec g.fs o
+  let g' := stepE codec g (.call o)
+  (g', s!"{showOutcome r.2.2} fb={showName r.2.1} | {showFs g'.fs}")
 
 /-- Rows `0 .. n-1` cut into chunks of the given sizes. -/
 def mkChunks (sizes : List Nat) : List (List Nat) :=
@@ -74,7 +79,7 @@ def bothBackends (sizes : List Nat) (nsel : ChunkRead.NSel) : String :=
   s!"cbin={showBlock (ChunkRead.readM (ChunkRead.rawCbin chunks) id nsel)} " ++
   s!"bin={showBlock (ChunkRead.readM (ChunkRead.rawBin chunks.flatten) id nsel)}"
 
-def step (s : Fs Nat Nat) (t : List String) : Fs Nat Nat × String :=
+def step (s : Hist Nat Nat) (t : List String) : Hist Nat Nat × String :=
   match t with
   | ["init", n, pat] =>
     match nat? n with
@@ -86,29 +91,35 @@ def step (s : Fs Nat Nat) (t : List String) : Fs Nat Nat × String :=
         | "both" => some { initCbin codec b with bin := some b }
         | _ => none
       match s' with
-      | some s' => (s', showFs s')
+      | some s' => ({ fs := s', versions := [b], cur := b }, showFs s')
       | none => (s, "bad-op")
     | none => (s, "bad-op")
   | ["compress", fb, keep, fault] =>
     match name? fb, bool? keep, fault? fault with
-    | some fb, some keep, some fault => answer (FsCompress.step codec s (.compress fb keep fault))
+    | some fb, some keep, some fault => answer s (.compress fb keep fault)
     | _, _, _ => (s, "bad-op")
   | ["decompress", fb, keep, ov, fault] =>
     match name? fb, bool? keep, bool? ov, fault? fault with
-    | some fb, some keep, some ov, some fault => answer (FsCompress.step codec s (.decompress fb keep ov fault))
+    | some fb, some keep, some ov, some fault => answer s (.decompress fb keep ov fault)
     | _, _, _, _ => (s, "bad-op")
   | ["toscratch", fb, scratch, fault] =>
     match name? fb, bool? scratch, fault? fault with
-    | some fb, some scratch, some fault => answer (FsCompress.step codec s (.toScratch fb scratch fault))
+    | some fb, some scratch, some fault => answer s (.toScratch fb scratch fault)
     | _, _, _ => (s, "bad-op")
+  | ["rewrite", v, n] =>
+    match nat? v, nat? n with
+    | some v, some n =>
+      let g' := stepE codec s (.rewrite ((List.range n).map (· + 100 * v)))
+      (g', s!"rewritten | {showFs g'.fs}")
+    | _, _ => (s, "bad-op")
   | ["open", e] =>
     match entry? e with
     | some e =>
-      let r := match openReader s e with
+      let r := match openReader s.fs e with
         | .ok (some d) => "ok " ++ showName d
         | .ok none => "ok none"
         | .error err => "err " ++ showErr err
-      (s, s!"{r} rec={showFile (recordingVia codec s e)}")
+      (s, s!"{r} rec={showFile (recordingVia codec s.fs e)}")
     | none => (s, "bad-op")
   | ["slice", sizes, a, b, st] =>
     match natList? sizes, optInt? a, optInt? b, optInt? st with
@@ -120,4 +131,4 @@ def step (s : Fs Nat Nat) (t : List String) : Fs Nat Nat × String :=
     | _, _ => (s, "bad-op")
   | _ => (s, "bad-op")
 
-def main : IO Unit := runS step ({} : Fs Nat Nat)
+def main : IO Unit := runS step ({ fs := {}, versions := [], cur := [] } : Hist Nat Nat)
